@@ -422,7 +422,12 @@ RunResult run_plan(const Plan &plan, const RunOptions &opt, Counters &cnt) {
   for (auto &l : ex.logs) add_counters(local, l.cnt);
 
   // C18 oracle (b): results independent of the schedule
-  if (have_canon && rr.viol.empty() && !ex.stats.deadlock && !canon.stats.deadlock) {
+  // A fault inside a static initialiser hits whichever task gets there first:
+  // the failing operation, and everything that depends on it, legitimately
+  // differs between schedules, so oracle (b) is not evaluated for such a run
+  // (TSan, the guard semantics and the progress oracle still are).
+  bool static_fault = canon.stats.static_init_faults || ex.stats.static_init_faults;
+  if (have_canon && rr.viol.empty() && !ex.stats.deadlock && !canon.stats.deadlock && !static_fault) {
     for (int t = 0; t < n; t++) {
       const TaskLog &a = canon.logs[t], &b = ex.logs[t];
       size_t m = std::min(a.obs.size(), b.obs.size());
@@ -430,12 +435,6 @@ RunResult run_plan(const Plan &plan, const RunOptions &opt, Counters &cnt) {
       size_t at = m;
       for (size_t i = 0; i < m; i++) {
         local.canonical_compared_ops++;
-        // StaticInitThrow configuration: whichever task happens to run the
-        // initialiser sees the fault, so isZero may legitimately report either
-        // its value or the fault (DESIGN §3 C18, soundness of oracle (b))
-        if (plan.static_init_throw && i < plan.progs[t].size() && plan.progs[t][i].kind == OP_P_ISZERO &&
-            (a.status[i] == ST_SCALARFAULT || b.status[i] == ST_SCALARFAULT))
-          continue;
         if (a.obs[i] != b.obs[i] || a.status[i] != b.status[i]) {
           bad = true;
           at = i;
